@@ -381,6 +381,10 @@ class HomeKitConnection:
             await self._connector
         except asyncio.CancelledError:
             pass
+        except Exception as ex:  # pylint: disable=broad-except
+            # The connector already finished with an error (for example an
+            # AuthenticationError); closing must not fail because of it.
+            logger.debug("%s: Connector had failed: %s", self.name, ex)
 
     async def get(self, target: str) -> HttpResponse:
         """
